@@ -67,6 +67,9 @@ type ReadCfg struct {
 	// Retry: the application retries a Read that failed with a temporary
 	// net.Error (the transport is told where to fail: Pipe.Transient).
 	Retry bool
+	// RereadAfterUTF8: after Read refused a text message the application
+	// calls Read once more.
+	RereadAfterUTF8 bool
 	// ContErr: the OnContinuation handler may refuse the final fragment of a
 	// message; the application answers with Discard and goes on (needs OnCont).
 	ContErr bool
@@ -399,6 +402,16 @@ func appReader(r *eng.Run, p *Pipe, cfg ReadCfg, o *Outcome) {
 					o.Open, o.Err, o.ErrAt = nil, nil, ""
 					continue
 				}
+			}
+			if cfg.RereadAfterUTF8 && o.Err == wsutil.ErrInvalidUTF8 && o.ErrAt == "Read" {
+				// A consumer that asks again after the refusal (a drain loop,
+				// io.ReadAtLeast): the refused message must not turn into a
+				// clean end.
+				var b [16]byte
+				if n, err := rd.Read(b[:]); err == io.EOF || (err == nil && n > 0) {
+					r.Failf("invalid_text_delivered", "Reader: after Read had refused the text message with ErrInvalidUTF8, the next Read returned (%d, %v)", n, err)
+				}
+				r.Probe("read_again_after_invalid_utf8")
 			}
 			if cfg.AfterUTF8Error && o.Err == wsutil.ErrInvalidUTF8 && o.ErrAt == "Read" {
 				if derr := rd.Discard(); derr == nil {
